@@ -428,6 +428,40 @@ theorem eval_runs_in_calling_scope (fuel : Nat) (st : State) (env : Nat) (e : Ex
     eval (fuel + 1) st env (.evalSrc e) = eval fuel st env e := by
   simp [eval]
 
+/-! ## 8b. switch: the first arm whose pattern binds the scrutinee runs, in a fresh scope per arm -/
+
+theorem switch_evaluates_scrutinee_first (fuel : Nat) (st st' : State) (env : Nat) (sc : Expr)
+    (arms : List SwitchArm) (v : Val) (hs : eval fuel st env sc = (.val v, st')) :
+    eval (fuel + 1) st env (.switch_ sc arms) = evalSwitch fuel st' env v arms := by
+  simp [eval, hs]
+
+/-- no arm matches: a catchable error, state untouched by the (empty) arm list -/
+theorem switch_no_arm_raises (fuel : Nat) (st : State) (env : Nat) (v : Val) :
+    evalSwitch (fuel + 1) st env v [] = (.thrown .err, st) := by
+  simp [evalSwitch]
+
+/-- an arm whose pattern binds the scrutinee runs its body in a fresh scope holding the bindings -/
+theorem switch_arm_matches (fuel : Nat) (st st2 : State) (env : Nat) (v : Val) (p : Pat) (body : Expr)
+    (rest : List SwitchArm)
+    (hm : declarePat (patDepth p + 1) (newFrame st env).1 (newFrame st env).2 p v = (true, st2)) :
+    evalSwitch (fuel + 1) st env v (.mk p body :: rest) = eval fuel st2 (newFrame st env).2 body := by
+  simp [evalSwitch, hm]
+
+/-- an arm whose pattern does not bind is skipped; the next arm starts again from the enclosing scope
+(whatever the failed arm bound lives in its own, now unreachable, frame) -/
+theorem switch_arm_skipped (fuel : Nat) (st st2 : State) (env : Nat) (v : Val) (p : Pat) (body : Expr)
+    (rest : List SwitchArm)
+    (hm : declarePat (patDepth p + 1) (newFrame st env).1 (newFrame st env).2 p v = (false, st2)) :
+    evalSwitch (fuel + 1) st env v (.mk p body :: rest) = evalSwitch fuel st2 env v rest := by
+  simp [evalSwitch, hm]
+
+/-- a literal arm is taken exactly for the equal integer -/
+theorem switch_literal_arm (fuel : Nat) (st : State) (env : Nat) (n m : Int) (body : Expr) (rest : List SwitchArm) :
+    evalSwitch (fuel + 1) st env (.int m) (.mk (.lit n) body :: rest) =
+      if m = n then eval fuel (newFrame st env).1 (newFrame st env).2 body
+      else evalSwitch fuel (newFrame st env).1 env (.int m) rest := by
+  by_cases h : m = n <;> simp [evalSwitch, declarePat, patDepth, h]
+
 /-! ## 9. non-vacuity: concrete programs exercising the laws (kernel-evaluated) -/
 
 /-- closures capture variables, not values: the counter closure sees its own updates -/
